@@ -106,6 +106,9 @@ def events(tier, depth_left, engine="pickle"):
     # every batch grown again explicitly
     ev.append(["crop", [[1, 20], [2, 20]], 1, True, None, "resow"])
     ev.append(["new_session"])
+    # a session that names the other engine for the same file: it cannot
+    # read the table and must not replace it
+    ev.append(["foreign"])
     # a second, long-lived Sampler object on the same file (another session
     # running at the same time; runs alternate, they do not overlap)
     ev.append(["other", [[2, 20]]])
@@ -121,7 +124,8 @@ class World:
         self.f = xfn.make_fn(["a", "b", "c", "k"], kind="num", name="f15",
                              defaults={"c": 0, "k": 0})
         self.path = os.path.join(d, "table." + {"pickle": "pkl",
-                                                "csv": "csv"}[cfg["engine"]])
+                                                "csv": "csv"}[cfg["engine"]]
+                                 + cfg.get("suffix", ""))
         self.rows = []  # reference model
         self.s = self.new_sampler()
         self.s2 = self.new_sampler()
@@ -345,6 +349,34 @@ class World:
             self.s = self.new_sampler()
             self.last = self.s
             return []
+        elif kind == "foreign":
+            self.last = prev_last
+            if not os.path.exists(self.path):
+                return []
+            other = {"pickle": "csv", "csv": "pickle"}[self.cfg["engine"]]
+            with open(self.path, "rb") as fh:
+                before_bytes = fh.read()
+            r = xyz.Runner(self.f, var_names="out", constants={"k": 0})
+            sf = xyz.Sampler(r, data_name=self.path, engine=other,
+                             default_combos={a: list(CH[a]) for a in CH})
+            try:
+                sf.sample_combos(1, verbosity=0)
+                raised = False
+            except Exception:
+                raised = True
+            with open(self.path, "rb") as fh:
+                after_bytes = fh.read()
+            if after_bytes != before_bytes or not raised:
+                vio.append(("foreign-session", "a Sampler naming engine %r "
+                            "for the %s table %s; the file %s" % (
+                                other, self.cfg["engine"],
+                                "raised" if raised else "sampled as if there "
+                                "were no table", "was rewritten"
+                                if after_bytes != before_bytes
+                                else "is unchanged")))
+                with open(self.path, "wb") as fh:
+                    fh.write(before_bytes)
+            return vio
         else:
             raise core.HarnessError("unknown event %r" % (ev,))
         if self.last is None:
@@ -450,12 +482,16 @@ def run(ctx):
     per = {}
     depth = 3 if ctx.tier == "quick" else 4
     cap = 450 if ctx.tier == "quick" else 3000
-    for cfg in ({"engine": "pickle"}, {"engine": "csv"}):
-        r = histbfs.bfs(ctx, "expand", cfg, depth, max_states=cap,
-                        label=cfg["engine"])
+    # (the third: a table name with a compression suffix, shallower)
+    for cfg in ({"engine": "pickle"}, {"engine": "csv"},
+                {"engine": "pickle", "suffix": ".gz"}):
+        gz = bool(cfg.get("suffix"))
+        r = histbfs.bfs(ctx, "expand", cfg, 2 if gz else depth,
+                        max_states=60 if gz else cap,
+                        label=cfg["engine"] + cfg.get("suffix", ""))
         states += r["states"]
         transitions += r["transitions"]
-        per[cfg["engine"]] = r
+        per[cfg["engine"] + cfg.get("suffix", "")] = r
     # the table only grows: the search cannot reach a fix-point
     ctx.exhaustive = False
     ctx.coverage_extra.update({
